@@ -57,6 +57,8 @@ EXTRACT_FN_PROGRAMS = [
     "fun g<T>(x: T, xs: List<T>): List<T> {\n  let ys = xs.append(x)\n  let show = string_repr\n  println(show(ys.len()))\n  ys\n}\nprintln(string_repr(g(1, [2])))\nprintln(string_repr(g(\"a\", [])))\n",
     # an if / else if / else chain whose branches have their own lets
     "fun sign(n: Int): String {\n  if n < 0 {\n    let m = 0 - n\n    \"minus \" ^ string_repr(m * 2)\n  } else if n == 0 {\n    \"zero\"\n  } else if (n + 1) > 3 {\n    let q = n + 1\n    \"plus \" ^ string_repr(q)\n  } else {\n    \"small\"\n  }\n}\nprintln(sign(0 - 3))\nprintln(sign(0))\nprintln(sign(5))\nprintln(sign(1))\n",
+    # comments that end in a keyword right before a statement; `else` in identifiers and strings
+    "fun f(n: Int): Int {\n  // nothing else\n  let r = g(n)\n  // or else\n  if r > 1 { r } else { 0 }\n}\nfun g(orelse: Int): Int {\n  let s = \"else\"\n  orelse + s.len()\n}\nprintln(string_repr(f(1)))\n",
     # blocks that bind and then go out of scope, one after the other
     "fun w(a: Int, flag: Bool): Int {\n  if flag {\n    let a = a + 100\n    println(string_repr(a))\n  }\n  for z in [a] {\n    let flag = z\n    println(string_repr(flag))\n  }\n  if flag { a } else { 0 - a }\n}\nprintln(string_repr(w(1, True)))\nprintln(string_repr(w(2, False)))\n",
 ]
